@@ -192,6 +192,7 @@ package catalog
 
 //@ pred catInv(c *Catalog) := c != nil && omTagsInv(c.Tags) && omServersInv(c.Servers) && omUserTypesInv(c.UserTypes)
 //@     && omUserRulesInv(c.UserEnums) && omInteractionsInv(c.Interactions)
+//@     && forall(q, TagName, imp(has(c.Tags.data, q), c.Tags.data[q] != nil))
 //@     && sepArr(c.Servers.order.arr, c.UserTypes.order.arr) && sepArr(c.Servers.order.arr, c.UserEnums.order.arr)
 //@     && sepArr(c.UserTypes.order.arr, c.UserEnums.order.arr)
 // two []string backing arrays do not overlap (the same element heap holds the key orders of three maps)
@@ -256,3 +257,15 @@ package catalog
 //@   ensures[C03,@unknown-server] imp(!has(c.Servers.data, serverName), result != nil)
 //@   ensures[C03,@baseurl-repeated] imp(has(c.Servers.data, serverName) && old(c.Servers.data[serverName].BaseUrl) != "", result != nil && c.Servers.data[serverName].BaseUrl == old(c.Servers.data[serverName].BaseUrl))
 //@   ensures imp(has(c.Servers.data, serverName) && old(c.Servers.data[serverName].BaseUrl) == "", result == nil && c.Servers.data[serverName].BaseUrl == path)
+
+// path-derived tags (C05): creating the tag for a path never replaces a tag that already exists under that name
+//@ func newPathTag(r)
+//@   attr trusted
+//@   ensures result != nil && fresh(result)
+//@ func (*Catalog).pathTag(c, r)
+//@   property C05
+//@   requires catInv(c)
+//@   modifies fields(c.Tags), c.Tags.data[:], c.Tags.order[:]
+//@   ensures[C05,@tag-not-replaced] forall(q, TagName, imp(old(has(c.Tags.data, q)), has(c.Tags.data, q) && c.Tags.data[q] == old(c.Tags.data[q])))
+//@   ensures[C05,@tag-registered] result != nil && imp(fresh(result), has(c.Tags.data, result.Name) && c.Tags.data[result.Name] == result)
+//@   ensures catInv(c)
